@@ -225,7 +225,7 @@ pub fn child_main(args: &[String]) -> i32 {
         // wait until the tracker serves, then serve k requests
         let t0 = Instant::now();
         let mut ready = false;
-        while t0.elapsed() < Duration::from_secs(15) && !handle.is_finished() {
+        while t0.elapsed() < Duration::from_secs(60) && !handle.is_finished() {
             if request(true) {
                 ready = true;
                 break;
@@ -260,7 +260,7 @@ pub fn child_main(args: &[String]) -> i32 {
         let fault_at = fault_at.clone();
         let case = case.clone();
         std::thread::spawn(move || {
-            let until = Instant::now() + Duration::from_secs(25);
+            let until = Instant::now() + Duration::from_secs(55);
             while Instant::now() < until && fault_at.lock().unwrap().is_none() {
                 if let Fault::Probe { probe, .. } = &case.fault {
                     if probe.ends_with(":signals:loop") {
@@ -292,7 +292,7 @@ pub fn child_main(args: &[String]) -> i32 {
             }
         });
     }
-    let poke_until = Instant::now() + Duration::from_secs(30);
+    let poke_until = Instant::now() + Duration::from_secs(60);
     let returned_after: Option<Duration>;
     loop {
         let fa = *fault_at.lock().unwrap();
